@@ -167,7 +167,7 @@ func initPath() {
 	impls["icmp4"] = func(a []string) string {
 		return runPath(a[0], int(packet.PayloadICMP4), env{debug: a[2] == "T"}, false)
 	}
-	// icmp6 frame payload debug srcunspec raprocessed hunting
+	// icmp6 frame payload debug ip6view raprocessed hunting
 	impls["icmp6"] = func(a []string) string {
 		c := ctxFor(false)
 		frame, err := c.s.Parse(exact(lib.UnHex(a[0])))
@@ -176,6 +176,9 @@ func initPath() {
 		}
 		if (frame.Host != nil) != (a[4] == "T") {
 			return "host-flag-differs"
+		}
+		if v := frame.IP6(); (v == nil) != (a[3] == "nil") || (v != nil && lib.Hex(v) != a[3]) {
+			return "ip6-view-differs"
 		}
 		dispatch(c, env{debug: a[2] == "T", hunting: a[5] == "T"}, frame)
 		return "ret"
